@@ -27,6 +27,7 @@ func init() {
 			{ID: "C06-R4", Title: "watcher is armed per run and scoped to it", Floor: 3, Run: func(c *core.Ctx) { watcherRules(c, "C06") }},
 			{ID: "C06-R5", Title: "cancellation observed by a blocking primitive is reported as an error", Floor: 2, Run: c06r5},
 			{ID: "C06-R6", Title: "nothing that runs scripts detaches from the caller's cancellation", Floor: 30, Run: ctxNotDetached},
+			{ID: "C06-R7", Title: "the VM passes on only contexts derived from the one it was given", Floor: 5, Run: ctxArgsDeriveFromParam},
 		},
 	})
 }
